@@ -149,11 +149,14 @@ import collections as _collections  # noqa: E402
 _STD_CONTAINERS = {"collections.defaultdict": _collections.defaultdict, "defaultdict": _collections.defaultdict,
                    "collections.Counter": _collections.Counter, "Counter": _collections.Counter,
                    "collections.OrderedDict": _collections.OrderedDict, "OrderedDict": _collections.OrderedDict}
+import re as _re  # noqa: E402
+
+_STD_RE = {"re." + k: getattr(_re, k) for k in ("sub", "match", "search", "fullmatch", "split", "findall", "escape")}
 _TYPES = {"bool": bool, "int": int, "float": float, "str": str, "list": list, "tuple": tuple,
           "dict": dict, "set": set, "slice": slice}
 _STR_METHODS = {
     "lower", "upper", "casefold", "strip", "lstrip", "rstrip", "startswith", "endswith", "split",
-    "replace", "isdigit", "join", "title", "capitalize", "format", "splitlines", "find", "rfind", "zfill", "isalpha", "isupper",
+    "replace", "isdigit", "join", "title", "partition", "rpartition", "rsplit", "count", "index", "removeprefix", "removesuffix", "isalnum", "islower", "isspace", "center", "ljust", "rjust", "expandtabs", "swapcase", "isnumeric", "isdecimal", "capitalize", "format", "splitlines", "find", "rfind", "zfill", "isalpha", "isupper",
 }
 _CONTAINER_METHODS = {"get", "items", "keys", "values", "count", "index", "copy", "append", "extend", "add", "update",
                       "setdefault", "pop", "clear", "remove", "discard", "insert", "sort", "reverse", "popitem", "union",
@@ -544,6 +547,13 @@ class Evaluator:
             return _ft.partial(*args, **kwargs)
         if key in _STD_CONTAINERS:
             return self._builtin(_STD_CONTAINERS[key], args, kwargs)
+        if key in _STD_RE and "re" not in self.locals and "re" not in self.bound:
+            try:
+                return _STD_RE[key](*args, **kwargs)    # regular expressions of the standard library: pure functions of strings
+            except (TypeError, ValueError, IndexError) as e:
+                raise Raised(type(e).__name__)
+            except _re.error:
+                raise Raised("re.error")
         if isinstance(n.func, ast.Name):
             if n.func.id not in self.locals and n.func.id in self.bound and callable(self.bound[n.func.id]):
                 return self.bound[n.func.id](*args, **kwargs)
@@ -588,6 +598,8 @@ class Evaluator:
             if isinstance(recv, str) and a in _STR_METHODS:
                 return self._builtin(getattr(recv, a), args, kwargs)
             if isinstance(recv, (dict, list, tuple, set)) and a in _CONTAINER_METHODS:
+                return self._builtin(getattr(recv, a), args, kwargs)
+            if isinstance(recv, _re.Match) and a in ("group", "groups", "start", "end", "span", "groupdict"):
                 return self._builtin(getattr(recv, a), args, kwargs)
             if (isinstance(recv, bytes) and a in ("decode", "strip", "startswith", "endswith")) or (isinstance(recv, str) and a == "encode"):
                 return self._builtin(getattr(recv, a), args, kwargs)
